@@ -38,11 +38,18 @@
 //   - Trace.Outputs[id] of a party that completed: ShardText(shard) =
 //     "pk=<hex>;vv=<hex>,..;pks=<id>:<hex>|<hex>,.." (group elements by Bytes(), public
 //     shares by ascending holder; the private share is NOT in the text, use Shards).
-//   - Deterministic, no goroutines, no `testing` import.
+//   - The party reads its tape through LockedReader (a mutex around the tape): the library's
+//     sigand composition (batch Okamoto in Round1) computes its D branch commitments in
+//     goroutines that all read the party's prng.  Shares, vectors and keys are read before
+//     that and are a deterministic function of the tape; which tape bytes become which
+//     Okamoto nonce (r1 reads after the first 2+2D) depends on goroutine scheduling, so the
+//     proof bytes are not reproducible.
+//   - The driver itself starts no goroutines; no `testing` import.
 package gennaro
 
 import (
 	"fmt"
+	"io"
 	"sort"
 	"strings"
 	"sync"
@@ -153,6 +160,18 @@ func ShardText[E algebra.PrimeGroupElement[E, S], S algebra.PrimeFieldElement[S]
 	return sb.String()
 }
 
+// LockedReader serialises Read calls on an io.Reader (the recording tape).
+type LockedReader struct {
+	mu sync.Mutex
+	R  io.Reader
+}
+
+func (l *LockedReader) Read(p []byte) (int, error) {
+	l.mu.Lock()
+	defer l.mu.Unlock()
+	return l.R.Read(p)
+}
+
 func freeze[M any](m map[sharing.ID]M) ds.Map[sharing.ID, M] {
 	h := hashmap.NewComparable[sharing.ID, M]()
 	for k, v := range m {
@@ -202,7 +221,7 @@ func RunFull[E algebra.PrimeGroupElement[E, S], S algebra.PrimeFieldElement[S]](
 			if ctx == nil {
 				return fmt.Errorf("no session context for party %d", uint64(id))
 			}
-			p, err := rg.NewParticipant(ctx, cfg.Group, cfg.AC, cfg.Compiler, tape)
+			p, err := rg.NewParticipant(ctx, cfg.Group, cfg.AC, cfg.Compiler, &LockedReader{R: tape})
 			if err != nil {
 				return err
 			}
